@@ -53,6 +53,12 @@ func (p *Program) TypeExpr(id int) string {
 		return "string"
 	case KArr:
 		return "[2]uint64"
+	case KBytes:
+		return "[]byte"
+	case KAny:
+		return "interface{}"
+	case KFuncT:
+		return "func(n int) int"
 	case KExt:
 		return fmt.Sprintf("hb.X%d", id)
 	case KExtPtr:
@@ -79,6 +85,20 @@ func (p *Program) haName() string {
 		return "fns"
 	}
 	return "ha"
+}
+
+// TypeExprIn is the spelling of type id where a function consumes it: for the
+// kinds that have two spellings of one type, the other one.
+func (p *Program) TypeExprIn(id int) string {
+	switch p.Types[id] {
+	case KBytes:
+		return "[]uint8"
+	case KAny:
+		return "any"
+	case KFuncT:
+		return "func(int) int"
+	}
+	return p.TypeExpr(id)
 }
 
 // mkExpr / unExpr wrap a token into / unwrap it from type id. In the program's
@@ -171,6 +191,12 @@ func (p *Program) typeDecls(b *strings.Builder) {
 			fmt.Fprintf(b, "func mkT%d(v uint64) string { return rt.TokStr(v) }\nfunc unT%d(x string) uint64 { return rt.StrTok(x) }\n\n", id, id)
 		case KArr:
 			fmt.Fprintf(b, "func mkT%d(v uint64) [2]uint64 { return [2]uint64{v, v} }\nfunc unT%d(x [2]uint64) uint64 { return x[0] }\n\n", id, id)
+		case KBytes:
+			fmt.Fprintf(b, "func mkT%d(v uint64) []byte {\n\tif v == 0 {\n\t\treturn nil\n\t}\n\tb := make([]byte, 8)\n\tfor i := range b {\n\t\tb[i] = byte(v >> (8 * uint(i)))\n\t}\n\treturn b\n}\nfunc unT%d(x []uint8) uint64 {\n\tvar v uint64\n\tfor i := 0; i < len(x) && i < 8; i++ {\n\t\tv |= uint64(x[i]) << (8 * uint(i))\n\t}\n\treturn v\n}\n\n", id, id)
+		case KAny:
+			fmt.Fprintf(b, "func mkT%d(v uint64) interface{} {\n\tif v == 0 {\n\t\treturn nil\n\t}\n\treturn v\n}\nfunc unT%d(x any) uint64 {\n\tv, _ := x.(uint64)\n\treturn v\n}\n\n", id, id)
+		case KFuncT:
+			fmt.Fprintf(b, "func mkT%d(v uint64) func(n int) int {\n\tif v == 0 {\n\t\treturn nil\n\t}\n\treturn func(n int) int { return int(v) + n }\n}\nfunc unT%d(x func(int) int) uint64 {\n\tif x == nil {\n\t\treturn 0\n\t}\n\treturn uint64(x(0))\n}\n\n", id, id)
 		case KVis, KVisPtr:
 			fmt.Fprintf(b, "func mkT%d(v uint64) %s { return %s.MkY%d(v) }\nfunc unT%d(x %s) uint64 { return %s.UnY%d(x) }\n\n", id, te, p.hcName(), id, id, te, p.hcName(), id)
 		case KExt, KExtPtr:
@@ -344,7 +370,7 @@ func (pr *printer) fnParts(f *Fn, c *Coll) (params, results, body string) {
 		args = append(args, fmt.Sprintf("unE%d(v)", c.Slot))
 	default:
 		for i, in := range f.Ins {
-			ps = append(ps, fmt.Sprintf("a%d %s", i, p.TypeExpr(in)))
+			ps = append(ps, fmt.Sprintf("a%d %s", i, p.TypeExprIn(in)))
 			args = append(args, p.unExpr(in, fmt.Sprintf("a%d", i), f.Spell == SpImport))
 		}
 	}
